@@ -284,6 +284,32 @@ def replay_generic(ctx, data):
     return 1
 
 
+def run_C16(ctx, proof_ok):
+    import collc
+    import itertools
+
+    r = lib.rng(16)
+    hs = [collc.gen_history(r, int(r.integers(1, 40))) for _ in range(budget(ctx.tier, 500, 6000))]
+    depth = budget(ctx.tier, 2, 3)
+    ex = list(collc.exhaustive_histories(depth))
+    n1, d1 = collc.compare_coll(ex)
+    n2, d2 = collc.compare_coll(hs)
+    ctx.violations.extend(d1 + d2)
+    # StateMatrix wrappers inherit: copy / resize / expand / reduce / stack / unstack
+    n3, d3 = collc.statematrix_wrappers(r, budget(ctx.tier, 150, 3000))
+    ctx.violations.extend(d3)
+    kinds = collections.Counter(op[0] for h in hs for op in h)
+    return {"evaluations": n1 + n2 + n3, "distinct_nontrivial": len({case_hash({"h": lib.jsonable(h)}) for h in hs if len(h) > 3}) + len(ex),
+            "exhaustive": False,
+            "rule": f"exhaustive histories of length {depth} over 3 shapes x 4 layouts + 9 other calls, both expand-axis conventions "
+                    "(shape/axes/error class vs the Lean state machine, values/independence/guarantees on the live object), then "
+                    "random histories of length <= 40 over 11 shapes and 9 layouts (ellipsis with fixed, named, free axes); "
+                    "StateMatrix copy/resize/expand/reduce/stack/unstack wrappers; non-trivial = history longer than 3 calls",
+            "samples": [lib.jsonable(hs[0]), lib.jsonable(ex[len(ex) // 2])],
+            "distribution": {"calls": dict(kinds), "exhaustive_histories": len(ex), "exhaustive_steps": n1, "random_steps": n2,
+                             "statematrix_wrapper_checks": n3}}
+
+
 def merge_results(a, b, rule):
     out = dict(a)
     out["evaluations"] = a["evaluations"] + b["evaluations"]
@@ -594,6 +620,17 @@ PROPS["C10"] = {
     "partial": ["theorems are about abstract affine operators over any ring (scalar arrays and 3x3 matrices are instances) and "
                 "about the generic bookkeeping run on operator arrays; the numpy plumbing (extend_operators, einsum, broadcast) is "
                 "tied by the combine correspondence on the real code; second-order tables of the composite are exercised, not proved"],
+}
+
+PROPS["C16"] = {
+    "lean_modules": ["EpgVerif.Props.C16"],
+    "tie": [],
+    "audit": "EpgVerif/Audit/C16.lean",
+    "run": run_C16,
+    "replay": replay_generic,
+    "theorems_hint": ["inv_reachable"],
+    "partial": ["the Lean state machine is shape-level (arrays by shape, `update`/`link`/`apply` not modelled): values, memory "
+                "independence of copies and the per-array guarantees are checked on the live objects by the correspondence harness"],
 }
 
 NOT_CLAIMED = {}
